@@ -245,6 +245,14 @@ add(Gram("c9", Level([
     Cmds([Cmd(["remote"], _c9_remote), Cmd(["stash"], _c9_stash)]),
 ]), short_flags="vn", short_args="f", note="the same command name at several places of the tree (`remote add`, `stash add`, `stash stash`)"))
 
+# choice between a named flag and a positional: the Level lists the names (C14 reads names and commands
+# only); the choice semantics is not expressible in spec/grammar.py, so these are in no differential list
+_f1_stdin = Named("req_flag", "i", ["stdin"], present=())
+add(Gram("f1", Level([Named("switch", "v", ["verbose"]), _f1_stdin, Pos("opt")]), short_flags="vi",
+         note="choice between a named flag and a positional, next to a switch (names-only Level)"))
+add(Gram("f2", Level([Named("switch", "v", ["verbose"]), Cmds([Cmd(["cat"], Level([_f1_stdin, Pos("opt")]))])]), short_flags="vi",
+         note="the same choice inside a subcommand (names-only Level)"))
+
 add(Gram("k5", None, short_flags="rs", short_args="w", names=("rsw", ["rect", "sw", "width"], []), note="switch, then optional adjacent group (flag + argument), then optional positional"))
 
 _hd_secret = Named("switch", "s", ["secret"])
